@@ -1,7 +1,7 @@
 import corpus
 
-PLAN_QUICK = [('ctx', ['v3', 'v4', 'lazy3']), ('act', ['v3', 'v4', 'lazy3']), ('core', ['v1'])]
-PLAN_THOROUGH = [('ctx', ['v3', 'v4', 'lazy3', 'v1']), ('act', ['v3', 'v4', 'lazy3', 'v1']), ('core', ['v1', 'v2']), ('conv', ['v3'])]
+PLAN_QUICK = [('state', ['v5']), ('act', ['v5']), ('ctx', ['v3', 'v4', 'lazy3']), ('act', ['v3', 'v4', 'lazy3']), ('core', ['v1'])]
+PLAN_THOROUGH = [('state', ['v5']), ('act', ['v5']), ('ctx', ['v3', 'v4', 'lazy3', 'v1']), ('act', ['v3', 'v4', 'lazy3', 'v1']), ('core', ['v1', 'v2']), ('conv', ['v3'])]
 
 
 def units(tier, seed):
